@@ -287,17 +287,25 @@ def _topology(run, ix, EF):
     if not par_stores or not edge_stores:
         raise AnalysisError("anchor vanished: parents[v] = u / edge_data[(u, v)] = kwargs in add_edge")
     # R3: memo cleared under `(u, v) not in self.edge_data`, and that test dominates the stores
-    ok3 = False
-    for n, st in cfg.stmt.items():
-        if st is not None and cfg.kind[n] == "test" and isinstance(st, ast.If):
-            t = ast.unparse(st.test).replace(" ", "")
-            if t == f"({u},{v})notinself.edge_data" and any(_is_memo_clear(x) for x in st.body):
-                if all(cfg.dominates(n, s) for s in par_stores + edge_stores):
-                    ok3 = True
-    # or an unconditional clear dominating the stores
-    for n, st in cfg.stmt.items():
-        if st is not None and cfg.kind[n] == "stmt" and _is_memo_clear(st) and all(cfg.dominates(n, s) for s in par_stores + edge_stores):
-            ok3 = True
+    # on every path that stores the edge, either the key was already present, or the memo is cleared on that path
+    from ..pathsum import summaries
+
+    def _norm(t):
+        return t.replace(" ", "").replace("(", "").replace(")", "")
+
+    present = _norm(f"({u},{v}) in self.edge_data")
+    ok3, n_paths = True, 0
+    for ps in summaries(add.node):
+        idx = [i for i, st in enumerate(ps.stmts) if isinstance(st, ast.Assign)
+               and _norm(ast.unparse(st.targets[0])) in (_norm(f"self.edge_data[{u},{v}]"), _norm(f"self.parents[{v}]"))]
+        if not idx:
+            continue
+        n_paths += 1
+        known = any(_norm(t) == present and pol for t, pol in ps.conds)
+        cleared = any(_is_memo_clear(st) for st in ps.stmts)
+        if not (known or cleared):
+            ok3 = False
+    ok3 = ok3 and n_paths > 0
     run.instance("R3", add.where, "add_edge clears the path memo whenever the edge key is new", ok3)
     if not ok3:
         run.violation("R3", add.where, "add_edge can insert a new parents/edge_data key without clearing the memoised shortest paths",
